@@ -90,7 +90,8 @@ def c20_case(draw):
                 corrupt=draw(st.sampled_from([None, None, 'under', 'over'])),
                 thousands=draw(st.booleans()),
                 copies=draw(st.sampled_from([0, 0, 2, 3])),
-                tricky_names=draw(st.sampled_from([False, False, True])))
+                tricky_names=draw(st.sampled_from([False, False, True])),
+                player_order=draw(st.sampled_from([0, 0, 1, 2, 3, 4])))
 
 
 def budget(tier):
@@ -208,6 +209,9 @@ def check(case, stats):
                                    bool(case.get('tricky_names')))
         if case.get('tricky_names'):
             stats.count('class:tricky_names')
+        if site == 'ipoker' and case.get('player_order'):
+            rec['player_order'] = case['player_order']
+            stats.count('class:ipoker_players_in_any_order')
         render_sites.THOUSANDS = bool(case.get('thousands')) and \
             site != 'pokerstars'
         try:
